@@ -351,6 +351,8 @@ type Pub struct {
 	// Gate, when set, is called for every request before it is answered
 	// (scheduling point for the model checker).
 	Gate func(r *Req)
+	// After, when set, is called when the request has been answered.
+	After func(r *Req)
 
 	mu     sync.Mutex
 	Log    []Req
@@ -401,6 +403,12 @@ func (p *Pub) ResetLog() {
 const wkBody = `{"/ipni/v1/ad":{"path":"/ipni/v1/ad/"}}`
 
 func (p *Pub) ServeHTTP(w http.ResponseWriter, r *http.Request) {
+	var reqDone *Req
+	defer func() {
+		if p.After != nil && reqDone != nil {
+			p.After(reqDone)
+		}
+	}()
 	req := Req{Host: r.Host, Path: r.URL.Path, Schema: r.Header.Get(ipnisync.CidSchemaHeader)}
 	pth := r.URL.Path
 	switch {
@@ -435,6 +443,7 @@ func (p *Pub) ServeHTTP(w http.ResponseWriter, r *http.Request) {
 	gate := p.Gate
 	p.mu.Unlock()
 
+	reqDone = &req
 	if gate != nil {
 		gate(&req)
 	}
@@ -459,8 +468,11 @@ func (p *Pub) ServeHTTP(w http.ResponseWriter, r *http.Request) {
 	body := rec.Body.Bytes()
 	done := func(st int) {
 		p.mu.Lock()
-		p.Log[idx].Status = st
-		p.Log[idx].Fault = fault.String()
+		// the log may have been reset while this request was in flight
+		if idx < len(p.Log) && p.Log[idx].Seq == req.Seq && p.Log[idx].Path == req.Path {
+			p.Log[idx].Status = st
+			p.Log[idx].Fault = fault.String()
+		}
 		p.mu.Unlock()
 	}
 	if fault == nil {
